@@ -35,7 +35,7 @@ Empty == [ from |-> <<>>, sel |-> <<>>, star |-> FALSE, distinct |-> FALSE,
            ins |-> "", cols |-> <<>>, vals |-> <<>>, replace |-> FALSE, selinto |-> FALSE,
            upd |-> "", sets |-> <<>>, del |-> FALSE,
            foreign |-> FALSE, forupd |-> FALSE, fidx |-> <<>>, uidx |-> <<>>,
-           ctes |-> <<>>,
+           ctes |-> <<>>, ret |-> <<>>,
            oc |-> FALSE, ocf |-> <<>>, ocnothing |-> FALSE, ocupd |-> <<>>, ocw |-> <<>>, ocuw |-> <<>> ]
 
 (***************************************************************************)
@@ -113,6 +113,9 @@ Eff(b, c) ==
       [] c.m = "replace" -> [b EXCEPT !.vals = Append(@, c.row), !.replace = TRUE]
       [] c.m = "update" -> [b EXCEPT !.upd = c.src]
       [] c.m = "set" -> [b EXCEPT !.sets = Append(@, [col |-> c.col, val |-> c.val])]
+      [] c.m = "setf" -> [b EXCEPT !.sets = Append(@, [col |-> c.f.n, val |-> c.val])]
+      [] c.m = "columnsf" -> [b EXCEPT !.cols = Append(@, c.f.n)]
+      [] c.m = "returning" -> [b EXCEPT !.ret = @ \o c.terms]
       [] c.m = "delete" -> [b EXCEPT !.del = TRUE]
       [] c.m = "for_update" -> [b EXCEPT !.forupd = TRUE]
       [] c.m = "force_index" -> [b EXCEPT !.fidx = Append(@, c.name)]
@@ -156,11 +159,12 @@ HasSubqFrom(b) == b.from # <<>> /\ SrcTab(b.from[1]).kind = "subq"
 \* WHERE / PREWHERE mention a table that is not one of the statement's own sources (decided against the CURRENT
 \* sources: independent of whether where() came before or after from_() / update())
 ForeignNow(b) == (\E i \in DOMAIN b.whr : Foreign(b, b.whr[i])) \/ (\E i \in DOMAIN b.pre : Foreign(b, b.pre[i]))
-NeedsNS(b) == \/ b.joins # <<>>
-              \/ Len(b.from) > 1
-              \/ HasSubqFrom(b)
-              \/ ForeignNow(b)
-              \/ (b.upd # "" /\ b.from # <<>>)
+NeedsNS(b) == /\ ~(b.ins # "" /\ ~b.selinto /\ b.vals # <<>>)    \* INSERT .. VALUES has exactly one row source
+              /\ \/ b.joins # <<>>
+                 \/ Len(b.from) > 1
+                 \/ HasSubqFrom(b)
+                 \/ ForeignNow(b)
+                 \/ (b.upd # "" /\ b.from # <<>>)
 
 (***************************************************************************)
 (* C09: the row-limiting tail, as a token-payload sequence                  *)
@@ -261,7 +265,12 @@ JoinQuals(js, i, ns) ==
 RECURSIVE ValsQuals(_, _, _)
 ValsQuals(rows, i, ns) == IF i > Len(rows) THEN <<>> ELSE QualsOf(rows[i], ns, "VALUES") \o ValsQuals(rows, i + 1, ns)
 
-\* expected (clause, qualifier, column) triples of the whole statement, in textual order per statement kind
+RECURSIVE SetQuals(_, _, _)
+\* SET targets are bare names, the assigned values are ordinary references
+SetQuals(sets, i, ns) == IF i > Len(sets) THEN <<>>
+                         ELSE << <<"SET", "", sets[i].col>> >> \o QualsOf(<<sets[i].val>>, ns, "SET") \o SetQuals(sets, i + 1, ns)
+
+\* expected (clause, qualifier, column) triples of the whole statement, in textual order per statement kind and dialect
 QualSeq(b, d) ==
     IF ~Complete(b) THEN <<>>
     ELSE LET ns == NeedsNS(b)
@@ -269,18 +278,19 @@ QualSeq(b, d) ==
              selq == QualsOf(b.sel, ns, "SELECT")
              joinq == JoinQuals(b.joins, 1, ns)
              whrq == QualsOf(b.whr, ns, "WHERE")
+             ordq == QualsOf(SeqMap1(b.ord), ns, "ORDER BY")
              tailq == joinq \o QualsOf(b.pre, ns, "PREWHERE") \o whrq \o QualsOf(b.grp, ns, "GROUP BY")
-                      \o QualsOf(b.hav, ns, "HAVING") \o QualsOf(SeqMap1(b.ord), ns, "ORDER BY")
-             setq == LET cs == SetCols(b.sets)  vs == SetVals(b.sets) IN
-                     \* SET targets are bare names, values are ordinary references
-                     [i \in 1..(2 * Len(cs)) |->
-                        IF i % 2 = 1 THEN <<"SET", "", cs[(i + 1) \div 2]>>
-                        ELSE <<"SETV", "", "">>]
+                      \o QualsOf(b.hav, ns, "HAVING") \o ordq
+             setq == SetQuals(b.sets, 1, ns)
+             ocq == IF b.oc /\ d # "mysql" THEN BareOf(b.ocf, "ON CONFLICT") ELSE <<>>
+             retq == IF d = "postgresql" THEN QualsOf(b.ret, ns, "RETURNING") ELSE <<>>
          IN
          IF k = "SELECT" THEN selq \o tailq
-         ELSE IF k = "DELETE" THEN tailq
-         ELSE IF k = "INSERT" THEN BareOf(b.cols, "COLUMNS") \o (IF b.vals # <<>> THEN ValsQuals(b.vals, 1, ns) ELSE selq \o tailq)
-         ELSE <<>>
+         ELSE IF k = "DELETE" THEN tailq \o retq
+         ELSE IF k = "INSERT" THEN BareOf(b.cols, "COLUMNS")
+                                   \o (IF b.vals # <<>> THEN ValsQuals(b.vals, 1, ns) \o ocq ELSE selq \o tailq \o ocq) \o retq
+         ELSE IF d \in {"postgresql", "sqlite"} THEN setq \o joinq \o whrq \o ordq \o retq
+         ELSE joinq \o setq \o whrq \o (IF d = "mysql" THEN ordq ELSE <<>>)
 
 (***************************************************************************)
 (* C12: where aliases are printed                                           *)
